@@ -5,6 +5,8 @@ use qv::runner::{case_file, Ctx, Prop};
 /// Runs one decoded case through the property's own oracle. A failure becomes a panic (libFuzzer
 /// crash). With QV_DUMP=<path> the decoded case is written as a replay file instead of being run.
 pub fn run_case<P: Prop>(p: &P, case: &P::Case) {
+    static HOOK: std::sync::Once = std::sync::Once::new();
+    HOOK.call_once(qv::util::install_fuzz_panic_hook);
     if let Ok(path) = std::env::var("QV_DUMP") {
         std::fs::write(path, case_file(p.id(), "fuzz", "decoded from a fuzz input", case)).unwrap();
         return;
